@@ -15,6 +15,9 @@ from __future__ import print_function, unicode_literals
 
 import typing
 
+import itertools
+from collections import OrderedDict
+
 from .errors import ResourceNotFound, ResourceReadOnly
 from .info import Info
 from .mode import check_writable
@@ -125,10 +128,14 @@ class WrapCachedDir(WrapFS[_F], typing.Generic[_F]):
         _path = abspath(normpath(path))
         cache_key = (_path, frozenset(namespaces or ()))
         if cache_key not in self._cache:
-            _scan_result = self._wrap_fs.scandir(path, namespaces=namespaces, page=page)
-            _dir = {info.name: info for info in _scan_result}
+            # always cache the complete listing; a page is a slice of it
+            _scan_result = self._wrap_fs.scandir(path, namespaces=namespaces, page=None)
+            _dir = OrderedDict((info.name, info) for info in _scan_result)
             self._cache[cache_key] = _dir
         gen_scandir = iter(self._cache[cache_key].values())
+        if page is not None:
+            start, end = page
+            gen_scandir = itertools.islice(gen_scandir, start, end)
         return gen_scandir
 
     def getinfo(self, path, namespaces=None):
